@@ -583,11 +583,24 @@ def replay_pdhg(sp, r, insts, states):
         else:
             pg = sp.prox.BoxConstraint([nn], lo, hi)
         theta = float(inst["theta"])
+        # operators that hand back their input array (a = 1: the identity) or one persistent output buffer are legitimate callers' choices
+        abuf = {"A": np.zeros(nn), "AH": np.zeros(nn)}
+
+        def mkop(tag):
+            if np.all(a == 1) and inst["id"] % 2 == 0:
+                return lambda v: v
+            if inst["id"] % 3 == 0:
+                def op(v, tag=tag):
+                    abuf[tag][:] = a * v
+                    return abuf[tag]
+                return op
+            return lambda v: a * v
+        Aop, AHop = mkop("A"), mkop("AH")
         if inst["fam"] == "tv":
-            alg = sp.alg.PrimalDualHybridGradient(sp.prox.Conj(sp.prox.L1Reg([nn], lam)), sp.prox.L2Reg([nn], 1, y=y), lambda v: a * v, lambda v: a * v, x, u, tau, sig,
+            alg = sp.alg.PrimalDualHybridGradient(sp.prox.Conj(sp.prox.L1Reg([nn], lam)), sp.prox.L2Reg([nn], 1, y=y), Aop, AHop, x, u, tau, sig,
                                                   theta=theta, max_iter=max_iter, tol=0)
         else:
-            alg = sp.alg.PrimalDualHybridGradient(sp.prox.L2Reg([nn], 1, y=-y), pg, lambda v: a * v, lambda v: a * v, x, u, tau, sig, theta=theta, max_iter=max_iter, tol=0)
+            alg = sp.alg.PrimalDualHybridGradient(sp.prox.L2Reg([nn], 1, y=-y), pg, Aop, AHop, x, u, tau, sig, theta=theta, max_iter=max_iter, tol=0)
         key_args = "fam=%s theta=%s " % (inst["fam"], theta) + "g=%s a=%s y=%s tau=%s sigma=%s start=%s" % (inst["g"], a, y, tau, sig, inst["start"])
         nup = 0
         ok = True
